@@ -274,7 +274,7 @@ def random_delete(base, rng, drop_empty):
 def slim(c):
     """what a 'del' case needs of a run: frames' scores, pairs, false negatives, AR."""
     o = c["obs"]
-    return dict(raised=c["raised"], frames=[dict(sc=f["sc"]) for f in c["frames"]],
+    return dict(raised=c["raised"], frames=[dict(sc=f["sc"], ng=len(f["gt"]), haspr=bool(f["haspr"])) for f in c["frames"]],
                 obs=dict(pairs=o["pairs"], fn=o["fn"], AR=o["AR"]))
 
 
